@@ -51,6 +51,8 @@ func main() {
 		os.Exit(cmdReplay(os.Args[2:]))
 	case "selftest":
 		os.Exit(cmdSelftest(os.Args[2:]))
+	case "manifest":
+		os.Exit(cmdManifest())
 	case "roles":
 		os.Exit(cmdRoles())
 	case "list":
@@ -152,14 +154,14 @@ func cmdCheck(args []string) int {
 }
 
 type propRun struct {
-	obs       []an.Obligation
-	notes     []string
-	counts    map[string]int
-	funcs     int
-	pkgs      int
-	loadErr   error
-	rulesRun  []string
-	extraCov  map[string]any
+	obs      []an.Obligation
+	notes    []string
+	counts   map[string]int
+	funcs    int
+	pkgs     int
+	loadErr  error
+	rulesRun []string
+	extraCov map[string]any
 }
 
 func runProperty(prop *rules.Prop, tier string, tables *an.Tables, extraEnv []string) *propRun {
